@@ -1,17 +1,59 @@
 """C19 - spline, trapezoid area and simplex minimiser meet their numerical contracts.
 
 (M)  Spline.tla: exact natural cubic spline by rational tridiagonal solve for 3..5 integer knots (Interpolates, Smooth, Natural, straight
-     lines reproduced, trapezoid area exact and additive - theorems on every knot set); the piece lookup of cubic_spline_predict with
-     LookupTol in {"abs1e-2", "exact"}: with the tree's absolute tolerance TLC shows a chosen piece outside PieceOf(x) at scales <= 1e-2.
+     lines reproduced, trapezoid area exact and additive - theorems on every knot set; Theorems2: the value does not depend on the unit
+     of x (k = 2, 3, 10), ordinates a y + b give a S + b (magnitude / offset), area additive over splits BETWEEN vertices, C0); the piece
+     lookup of cubic_spline_predict with LookupTol in {"abs1e-2", "exact"}: with an absolute tolerance TLC shows a chosen piece outside
+     PieceOf(x) at scales <= 1e-2.  SplineHist.tla: the caller-owned coefficient table over several fits (Policy "resize" | "keep"):
+     TableIsCurrent (one row per piece, every row and the LAST row written by the current fit) holds for "resize" and is refuted for "keep".
+     NMTie.tla: EXACT model of NelderMeadSimplex in two dimensions (Gao-Han parameters are dyadic for n = 2: integer arithmetic in units of
+     2^-10, MatrixSort's exchange sort, all five moves) on integer quadratics x integer starts x integer steps; Rule "strict" (f1 < fr, the
+     pinned tree) is refuted by NoStall (a reflection that TIES with the best vertex fires no branch: the iteration repeats for ever);
+     StopRule "values" (stop when the vertex values agree, the pinned tree) is refuted by NoFalseStop (three distinct vertices on one level
+     curve); Rule "textbook" (f1 <= fr) with StopRule "values+size" satisfies NoStall / NoFalseStop / BestNeverWorse / PrecisionOK on the
+     whole family; TLC prints every start of the family and the real routine is run on each of them (start class 10), judged by the
+     ordinary contract.
 (R)  c19_spline replay: every TLC-emitted knot set evaluated at scales 1e-4..1e4; predictions at knots/midpoints against TLC's rational
      value (rel 1e-9), the piece actually used identified from the public S table; curve_area against TLC's exact area.
 (V)  c19_spline ledger: 3..40 knots, uniform / irregular spacings 1e-4..1e4: interpolation, C1/C2, natural ends, linear reproduction,
      the one-call form interpolate() (shape, increasing abscissae over the knot range, value = two-call form, first point, lines),
      unit independence, trapezoid exactness/additivity, validated by TLC against TraceSpline.tla.
+     c19_cls SESSIONS (INPUT-CLASSES K2 K3 K4 K5 K7 K8): one coefficient table, one interpolate() output and one prediction vector live
+     through several fits (N1 knots, then fewer, more, the same number with other data; tables / outputs that are already sized and
+     hold other data); after EVERY fit all clauses are judged again by TLC (SFit / SInt / SArea of TraceSpline.tla; the table a call
+     found must be the table the previous call left).  Data classes per fit: spacing uniform / irregular / two decades / EXTREME mix of
+     1e-4 and 1e4 in one knot set / wide / graded; ordinate magnitudes 1e-6..1e6, ordinate offsets 1e6 x magnitude, abscissa offsets
+     1e6 x spacing, straight lines; queries at knots, midpoints, ONE ULP left and right of every knot, quarter points of the first and the
+     last piece; tolerances are TLA+ functions of the logged spacing decades (Span, Rep).  Sent: queries at which the spline takes the
+     value of the MISSING code.  Outside the statement (EXTRA-FINDING only): curve_area(xy, np > 0), descending abscissae, extrapolation.
      c19_nm: objective-callback traces of NelderMeadSimplex on strictly convex quadratics (2..6 dims, cond <= 100): TraceNM.tla infers the
-     unlogged move of every evaluation (Gao-Han automaton = Impl layer); TraceNMProp.tla (flat) holds the result contract.
+     unlogged move of every evaluation (Gao-Han automaton = Impl layer); TraceNMProp.tla (flat) holds the result contract.  Start classes:
+     generic, FLAT start (all n+1 initial values equal: exactly for separable and non-separable integer quadratics, to 1e-12 for general
+     ones; flatness is verified by TLC on the logged evaluations), start AT the minimiser, start 1e3 away, step decades 1e-3..1e3,
+     cond = 100 exactly, the same minimisation twice in one process, result vector already sized; all dimensions 2..6 in both layers.
+
+CLAUSE TABLE (statement of C19 -> what decides it -> event that carries it)
+  spline passes through every point ........ Spline!Theorems (Interpolates); TVal (exact value), TLedger.interp, TSFit.interp ........ Val, Ledger, SFit
+    ... also one ulp beside every knot ..... TSFit.ulpv <= TolRep(Rep, Span), TSFit.ulpw = 0 ............................... SFit
+    ... also after a refit into a used table  SplineHist!TableIsCurrent; TSFit (prev = rows left, rows = nk - 1, cols = 5) ........ Reset, SFit
+    ... also where the value is 99999999 ... TSent (err <= TolVal) .................................................................... Sent
+  piece that holds the abscissa is used .... Spline!LookupRight; TPiece (chosen /\ PieceOfSeq # {}); TLedger.lookup = 0, TSFit.lookup ... Piece, Ledger, SFit
+  C1 / C2 at interior knots ................ Spline!Theorems (Smooth); TLedger.c1 .c2, TSFit.c1 .c2 <= TolAmp(Span) ................... Ledger, SFit
+  zero second derivative at both ends ...... Spline!Theorems (Natural); TLedger.nat, TSFit.nat ....................................... Ledger, SFit
+  straight lines reproduced ................ Spline!Theorems (Linear); TLedger.lin, TInterp.lin, TSFit.lin, TSInt.lin ................ Ledger, Interp, SFit, SInt
+  independent of the units of x ............ Spline!Theorems2 (ScaleX); replay at nine decades (TVal); TLedger.unit; TSFit.unit .unit2 .. Val, Ledger, SFit
+  (value independent of the other queries).. TLedger.ord, TSFit.ord (one call, other order, already sized result vector) ............. Ledger, SFit
+  interpolate() = the same spline .......... TInterp, TSInt (shape np x 2 whatever the output held, increasing, value, first point, ends) Interp, SInt
+  trapezoid area = exact integral .......... Spline!Theorems (Area = Integral); TArea.err, TAreaL.exact, TSArea.exact ................. Area, AreaL, SArea
+  area additive over sub-ranges ............ Spline!Theorems (additive), Theorems2 (between vertices); TArea.add, TAreaL.add, TSArea.add .addb Area, AreaL, SArea
+  simplex: reported value = f(point) ....... TraceNM!Check / TraceNMProp!TCheck (V = ret) ............................................ Return, Check
+  never worse than best initial vertex ..... TraceNM!Return, BestNeverWorse / TraceNMProp!TReturn (Le(V, best0)) ...................... Eval, InitBest, Return
+  terminates within the iteration limit .... TReturn (n + 1 <= evals <= cap) ......................................................... Reset, Return
+  converges on strictly convex quadratics .. TQuad / Quad (judge = 1 => dist <= MinTol; offset class: adist <= AbsBound(R)) for EVERY
+                                             start class; flat classes verified on the trace (TReset fs, InitEval V = buf[1]);
+                                             NMTie!NoStall, NoFalseStop (exact 2-D model, both acceptance / stop rules), family replayed (sc = 10) ....... Reset, Eval, Quad
 """
-import os, shutil
+import os, shutil, threading, copy
 from concurrent.futures import ThreadPoolExecutor
 from vf import build, tlc, trace
 from vf import run as hrun
@@ -19,16 +61,52 @@ from vf.core import InfraError
 
 LEVEL = "exploration"
 READY = True
-TECHNIQUE = ("TLC as exact rational oracle for tiny natural cubic splines and polyline areas (Spline.tla, theorems + exhaustive lookup model) replayed "
-             "into cubic_spline_interpolation/cubic_spline_predict/curve_area at nine scales; TLC trace validation of sampled ledgers (3..40 knots) "
-             "and of Nelder-Mead objective-callback traces against a move-inferring automaton (TraceNM.tla) and a flat contract spec (TraceNMProp.tla)")
-LEVEL_TEXT = ("Sampled inputs inside the property's quantifier (knot counts 3..40, spacing decades 1e-4..1e4, quadratics 2..6 dims cond <= 100), each "
-              "recorded execution accepted or rejected by TLC; the lookup / exact-spline / area core is exhaustive over all integer knot sets of the "
-              "stated small scope and replayed at every scale decade.")
+TECHNIQUE = ("TLC as exact rational oracle for tiny natural cubic splines and polyline areas (Spline.tla: theorems incl. unit / affine-ordinate / "
+             "between-vertex laws + exhaustive lookup model; SplineHist.tla: the caller-owned coefficient table over several fits) replayed into "
+             "cubic_spline_interpolation/cubic_spline_predict/curve_area at nine scales; TLC trace validation of sampled ledgers (3..40 knots), of "
+             "class-scheduled in-process SESSIONS (refits into used tables / outputs, spacings mixing 1e-4 and 1e4, ordinate magnitudes 1e-6..1e6 and "
+             "offsets 1e6, queries one ulp beside the knots; tolerances are TLA+ functions of the logged spacing decades) and of Nelder-Mead "
+             "objective-callback traces against a move-inferring automaton (TraceNM.tla) and a flat contract spec (TraceNMProp.tla) over start "
+             "classes (flat start, at the minimiser, 1e3 away, step decades 1e-3..1e3, 2..6 dimensions); an exact integer model of the 2-D routine "
+             "(NMTie.tla) model-checked for both reflection-acceptance rules and its whole start family replayed through the real routine")
+LEVEL_TEXT = ("Sampled and class-scheduled inputs inside the property's quantifier (knot counts 3..40 - every count in the thorough tier, 3 4 5 39 40 "
+              "and a sample in the quick tier -, spacing decades 1e-4..1e4 alone and mixed in one knot set, ordinate magnitudes / offsets, several fits "
+              "into the same objects; quadratics 2..6 dims cond <= 100 over nine start classes), each recorded execution accepted or rejected by TLC; the "
+              "lookup / exact-spline / area core is exhaustive over all integer knot sets of the stated small scope and replayed at every scale decade; "
+              "the table-history model is exhaustive over 4 fits of 5 knot counts x 9 initial tables; the exact Nelder-Mead model covers 5 integer "
+              "quadratics x 25 (49) starts x 16 step pairs for 5 iterations, and each of those 2,000 (3,920) starts is minimised by the real routine.")
 LEVEL_NOTE = ("Trusts TLC, the harness's double-precision residual evaluation and quantisation, the identification of the piece used through the public "
-              "S table (tolerance 1e-9), the 3-limb order-preserving encoding of doubles; ledger inputs are sampled, not exhaustive.")
+              "S table (tolerance 1e-9), the 3-limb order-preserving encoding of doubles; ledger / session inputs are sampled, not exhaustive. Tolerances: "
+              "1e-8 (TolLedger) for every class the ledger had before (spacing span <= 2 decades), TolAmp = max(1e-8, 1e-12 * 10^Span) for knot sets whose "
+              "spacings span more decades (amplification of the natural spline; worst observed / bound 0.008 over 72,000 fits), TolRep adds 1e-15 * 10^(Rep+1) "
+              "for queries one ulp beside a knot, unit change by 1000 judged while Rep + Span <= 10 (the exact rescaling by 1024 always). Classes NOT emitted "
+              "because the quantifier or the code excludes them: K1 shape relations other than the knot count / dimension (a spline has one column pair); "
+              "K6 processor counts (interpolate.c, numeric.c curve_area and optimization.c reach no MT_* kernel and spawn no worker); K9 MISSING ordinates "
+              "as such (an ordinate EQUAL to 99999999 is the library's missing code, not an 'arbitrary ordinate' - only spline VALUES that pass through "
+              "the code between ordinary ordinates are generated); K10 labels (none); knots closer than 1e-4 or wider than 1e4, < 3 or > 40 knots, "
+              "non-increasing abscissae (N.B. in interpolate.h), condition numbers > 100, non-quadratic objectives; curve_area(xy, np > 0), descending "
+              "abscissae and extrapolation are outside the statement (EXTRA-FINDING only).")
 
-PAR = int(os.environ.get("VERIF_PAR", "12"))
+PAR = int(os.environ.get("VERIF_WORKERS") or os.environ.get("VERIF_PAR") or "12")
+
+
+class _Locked:
+    """ctx proxy: the parts of this check run in threads; every ctx method is called under one lock"""
+    def __init__(self, ctx):
+        object.__setattr__(self, "_c", ctx)
+        object.__setattr__(self, "_l", threading.RLock())
+
+    def __getattr__(self, k):
+        v = getattr(self._c, k)
+        if callable(v):
+            def f(*a, **kw):
+                with self._l:
+                    return v(*a, **kw)
+            return f
+        return v
+
+    def __setattr__(self, k, v):
+        setattr(self._c, k, v)
 
 
 def dec_name(e):
@@ -42,7 +120,7 @@ def spline_model(ctx):
     else:
         cfgs = [("MC_Spline_thorough_3.cfg", 2), ("MC_Spline_thorough_4.cfg", 6), ("MC_Spline_thorough_5.cfg", 8)]
     with ThreadPoolExecutor(3) as ex:
-        rs = list(ex.map(lambda c: tlc.run("Spline", c[0], workers=c[1], timeout=1700, coverage=False, xmx="4g"), cfgs))
+        rs = list(ex.map(lambda c: tlc.run("Spline", c[0], workers=min(c[1], max(2, PAR)), timeout=1700, coverage=False, xmx="4g"), cfgs))
     recs, seen = [], set()
     for (c, _), r in zip(cfgs, rs):
         ctx.add_tlc(r, "mc_" + c[3:-4].lower())
@@ -55,7 +133,7 @@ def spline_model(ctx):
                 recs.append(e)
     if not recs:
         raise InfraError("Spline.tla emitted no knot set")
-    ctx.note("model: Interpolates/Smooth/Natural/Linear/Area theorems and LookupRight(exact) hold on %d integer knot sets" % len(recs))
+    ctx.note("model: Interpolates/Smooth/Natural/Linear/Area theorems, Theorems2 (units, affine ordinates, between-vertex additivity) and LookupRight(exact) hold on %d integer knot sets" % len(recs))
     r = tlc.run("Spline", "MC_Spline_abs.cfg", workers=2, timeout=600, coverage=False)
     ctx.add_tlc(r, "mc_spline_abs1e-2")
     if r.violation != "LookupRight":
@@ -63,6 +141,22 @@ def spline_model(ctx):
     ctx.note("model: with the absolute 1e-2 tolerance LookupRight is refuted (chosen piece outside PieceOf(x))")
     ctx.steps["lookup_counterexample"] = r.trace_text[:400]
     return recs
+
+
+def hist_model(ctx):
+    """SplineHist.tla: the coefficient table over several fits; 'resize' holds, 'keep' (reallocate only when too small) is refuted"""
+    r = tlc.run("SplineHist", "MC_SplineHist_resize.cfg", workers=2, timeout=600)
+    ctx.add_tlc(r, "mc_splinehist_resize")
+    if not r.ok:
+        raise InfraError("SplineHist.tla (resize): %s fails in the model itself:\n%s" % (r.violation, r.trace_text[:1200]))
+    if r.zero_actions():
+        raise InfraError("SplineHist.tla: actions never taken: %s" % r.zero_actions())
+    k = tlc.run("SplineHist", "MC_SplineHist_keep.cfg", workers=2, timeout=600)
+    ctx.add_tlc(k, "mc_splinehist_keep")
+    if k.violation != "TableIsCurrent":
+        raise InfraError("SplineHist.tla with Policy = keep: expected TableIsCurrent to be refuted, got %s" % k.violation)
+    ctx.steps["table_history_counterexample"] = k.trace_text[-500:]
+    ctx.note("model: the coefficient table is current after every fit for Policy = resize (%d states); Policy = keep is refuted (stale last row after a fit with fewer knots)" % r.distinct)
 
 
 def _sig_spline(ev):
@@ -135,6 +229,8 @@ def spline_replay(ctx, recs, exe, rd):
             cur = ev["E"]
             gaps = [b - a for a, b in zip(ev["xs"], ev["xs"][1:])]
             ctx.case(("replay", ev["nk"], ev["E"], tuple(ev["xs"])), ev["E"] != 0 or len(set(gaps)) > 1)
+            ctx.cls("K4:xscale=%s" % dec_name(ev["E"]))
+            ctx.cls("K2:nk=%d" % ev["nk"])
         bydec.setdefault(cur, []).append(ev)
     for ev in events:
         if ev["e"] == "Knots" and ev["E"] == -3 and len(set(b - a for a, b in zip(ev["xs"], ev["xs"][1:]))) > 1:
@@ -163,8 +259,12 @@ def spline_ledger(ctx, exe, rd, count):
     for ev in events:
         if ev["e"] == "Ledger":
             ctx.case(("ledger", ev["nk"], ev["dec"], ev["irr"]), True)
+            ctx.cls("K2:nk=%d" % ev["nk"])
+            ctx.cls("K4:xscale=%s" % dec_name(ev["dec"]))
+            ctx.cls("K4:mesh=%s" % ("uniform", "irregular", "two-decades")[ev["irr"]])
         if ev["e"] == "Interp":
             ctx.case(("interpolate", ev["nk"], ev["dec"], ev["np"]), ev["np"] > 2)
+            ctx.cls("K7:interpolate-out=sized-3x5")
     if not any(ev["e"] == "Interp" for ev in events):
         raise InfraError("c19_spline ledger recorded no interpolate() call")
     ctx.sample(events[0], 5)
@@ -182,7 +282,217 @@ def spline_ledger(ctx, exe, rd, count):
         trace.binding_selftest(ctx, "TraceSpline", "Trace_Spline.cfg", events[:100], corrupt, "binding_ledger")
 
 
+# ---------------------------------------------------------------- spline: class-scheduled sessions (c19_cls.c)
+TOLLEDGER, TOLAREA, TOLVAL = 10000, 1000, 1000
+MESH = ("uniform", "irregular", "two-decades", "extreme-mix-1e-4-and-1e4", "wide", "graded")
+
+
+def _hist(prev, want):
+    return "fresh" if prev == 0 else "shrink" if prev > want else "grow" if prev < want else "same"
+
+
+def _p10(k):
+    return 1 if k <= 0 else 10 ** k
+
+
+def _tols(hd, xe):
+    """python mirror of TolAmp / TolRep / TolUnit of TraceSpline.tla - used ONLY to word a violation TLC has already decided"""
+    sp, rp = max(hd) - min(hd), xe - min(hd)
+    amp = TOLLEDGER if sp <= 2 else max(TOLLEDGER, _p10(sp))
+    rep = amp + (_p10(9 if rp > 11 else rp - 2) if rp >= 2 else 0)
+    unit = max(TOLLEDGER, _p10(rp + sp - 2)) if rp + sp + 1 <= 11 else 2000000000
+    return sp, rp, amp, rep, unit
+
+
+def _sig_session(ev, block):
+    e = ev.get("e")
+    if e == "SFit":
+        want, h = ev["nk"] - 1, _hist(ev["prev"], ev["nk"] - 1)
+        where = "%d knots fitted into a table that held %d rows (%s)" % (ev["nk"], ev["prev"], h)
+        if ev["rows"] != want or ev["cols"] != 5:
+            return "SPLINE:table:%s" % h, "%s: the table has %d x %d afterwards, one row per piece would be %d x 5; cubic_spline_predict takes rows-1 as the number of pieces and the last row as the last piece" % (
+                where, ev["rows"], ev["cols"], want)
+        sp, rp, amp, rep, unit = _tols(ev["hd"], ev["xe"])
+        order = [("lookup", ev["lookup"] > 0), ("interp", ev["interp"] > amp), ("smooth", ev["c1"] > amp or ev["c2"] > amp), ("natural", ev["nat"] > amp),
+                 ("linear", ev["line"] == 1 and ev["lin"] > amp), ("unit", ev["unit2"] > amp or ev["unit"] > unit), ("query-order", ev["ord"] > TOLLEDGER),
+                 ("lookup:ulp", ev["ulpw"] > 0), ("interp:ulp", ev["ulpv"] > rep)]
+        k = next((n for n, bad in order if bad), "history")
+        return "SPLINE:%s:%s" % (k, h), "%s, mesh %s (span %d decades), ordinates of magnitude 1e%d%s: %s" % (where, MESH[ev["sp"]], sp, ev["ym"], " with an offset 1e6 times larger" if ev["yo"] else "", {
+            q: ev[q] for q in ("interp", "c1", "c2", "nat", "lin", "unit", "unit2", "ord", "lookup", "ulpw", "ulpv", "prev", "rows")})
+    if e == "SInt":
+        h = "fresh" if ev["prow"] == 0 else "same" if (ev["prow"], ev["pcol"]) == (ev["np"], 2) else "cols" if ev["pcol"] != 2 else "shrink" if ev["prow"] > ev["np"] else "grow"
+        where = "interpolate() of %d knots at %d points into an output that was %d x %d (%s)" % (ev["nk"], ev["np"], ev["prow"], ev["pcol"], h)
+        if ev["rows"] != ev["np"] or ev["cols"] != 2 or ev["mono"] != 1:
+            return "SPLINE:interpolate:shape:%s" % h, "%s: result is %d x %d, increasing=%d" % (where, ev["rows"], ev["cols"], ev["mono"])
+        k = next((n for n in ("val", "first", "ends", "lin") if ev[n] > TOLLEDGER), "history")
+        return "SPLINE:interpolate:%s:%s" % (k, h), "%s: %s" % (where, ev)
+    if e == "SArea":
+        k = "exact" if ev["exact"] > TOLAREA else "additive" if ev["add"] > TOLAREA else "additive-between-vertices"
+        return "AREA:%s" % k, "curve_area(xy, 0) on %d points: error %s, additivity defect at vertices %s, between vertices %s (1e-12 units)" % (ev["nk"], ev["exact"], ev["add"], ev["addb"])
+    return "SPLINE:trace:%s" % e, "unexpected event %s" % ev
+
+
+def _accept_reject(ctx, label, good, bad):
+    """binding self-test on synthetic lines: the good ones must be accepted, the corrupted one rejected"""
+    ok, n, r = tlc.validate_trace("TraceSpline", "Trace_Spline.cfg", good)
+    if not ok:
+        raise InfraError("binding self-test %s: reference line rejected at %d" % (label, n))
+    ok, n, r = tlc.validate_trace("TraceSpline", "Trace_Spline.cfg", bad)
+    if ok:
+        raise InfraError("binding lost: corrupted %s line accepted by TraceSpline" % label)
+    ctx.steps[label] = dict(rejected_at=n, ok=True)
+
+
+def spline_sessions(ctx, exe, rd, nsess, every):
+    out = os.path.join(rd, "sessions.ndjson")
+    h = hrun.run(exe, [out, ctx.seed, nsess, every], timeout=1500)
+    if h.rc != 0:
+        if h.san:
+            ctx.violation("SPLINE:sessions:%s" % h.san, "sanitizer report in the spline session run (refits into used tables / outputs):\n%s" % h.err[:1500],
+                          dict(kind="spline_sessions", nsess=nsess))
+        else:
+            raise InfraError("c19_cls failed rc=%s: %s" % (h.rc, h.err[-800:]))
+    events = hrun.read_ndjson(out)
+    main = [e for e in events if e["e"] in ("Reset", "SFit", "SInt", "SArea")]
+    sent = [e for e in events if e["e"] == "Sent"]
+    extra = [e for e in events if e["e"] in ("XArea", "Extrap")]
+    if not main or not sent or not extra:
+        raise InfraError("c19_cls: a stream is empty (main %d, sentinel %d, extra %d)" % (len(main), len(sent), len(extra)))
+    need = set(["K7:S=%s" % k for k in ("fresh", "shrink", "grow", "same", "presized-larger", "presized-other-width")] +
+               ["K7:interpolate-out=%s" % k for k in ("fresh", "shrink", "grow", "same", "cols")] +
+               ["K4:mesh=%s" % m for m in MESH] + ["K4:ymag=1e%d" % k for k in (-6, -3, 0, 3, 6)] +
+               ["K3:yoffset=1e6", "K3:xoffset=1e6", "K8:collinear", "K5:query=knot+-1ulp", "K7:result-vector=sized"] + ["K2:nk=%d" % k for k in (3, 4, 5, 39, 40)])
+    if every:
+        need |= set("K2:nk=%d" % k for k in range(3, 41))
+    got = set()
+    pre = 0
+    for ev in main:
+        if ev["e"] == "Reset":
+            pre = ev["pre"]
+        if ev["e"] == "SFit":
+            hcls = _hist(ev["prev"], ev["nk"] - 1)
+            tags = ["K7:S=%s" % hcls, "K4:mesh=%s" % MESH[ev["sp"]], "K4:ymag=1e%d" % ev["ym"], "K2:nk=%d" % ev["nk"], "K5:query=knot+-1ulp", "K7:result-vector=sized"]
+            if ev["k"] == 0 and pre == 1:
+                tags.append("K7:S=presized-larger")
+            if ev["k"] == 0 and pre == 2:
+                tags.append("K7:S=presized-other-width")
+            if ev["yo"]:
+                tags.append("K3:yoffset=1e6")
+            if ev["xo"]:
+                tags.append("K3:xoffset=1e6")
+            if ev["line"]:
+                tags.append("K8:collinear")
+            if ev["sp"] <= 2:
+                tags.append("K4:xscale=%s" % dec_name(ev["dec"]))
+            for t in tags:
+                ctx.cls(t)
+                got.add(t)
+            ctx.case(("sfit", ev["nk"], hcls, ev["sp"], ev["ym"], ev["yo"], ev["xo"], ev["line"]), True)
+        elif ev["e"] == "SInt":
+            hc = "fresh" if ev["prow"] == 0 else "same" if (ev["prow"], ev["pcol"]) == (ev["np"], 2) else "cols" if ev["pcol"] != 2 else "shrink" if ev["prow"] > ev["np"] else "grow"
+            ctx.cls("K7:interpolate-out=%s" % hc)
+            got.add("K7:interpolate-out=%s" % hc)
+            ctx.case(("sint", ev["nk"], ev["np"], hc), True)
+        elif ev["e"] == "SArea":
+            ctx.case(("sarea", ev["nk"]), True)
+    for ev in sent:
+        ctx.cls("K9:value-passes-through-MISSING-code")
+        ctx.case(("sent", ev["nk"], ev["piece"]), ev["found"] == 1)
+    if not any(ev["found"] == 1 for ev in sent):
+        raise InfraError("c19_cls: no query at the MISSING-code level was constructed")
+    missing = sorted(need - got)
+    if missing:
+        raise InfraError("c19_cls: input classes not emitted: %s" % missing)
+    ctx.sample(next(e for e in main if e["e"] == "SFit" and e["prev"] > e["nk"] - 1), 8)
+    ctx.sample(next(e for e in main if e["e"] == "SFit" and e["sp"] == 3), 9)
+
+    def on_reject(ev, idx, block):
+        sig, what = _sig_session(ev, block)
+        ctx.violation(sig, what, dict(kind="spline_sessions", nsess=nsess, every=every, session=block[0] if block else None, event=ev))
+
+    # sessions are independent blocks: validate in chunks (a rejected session is dropped, the rest is still judged)
+    blocks = tlc.split_blocks(main)
+    per = 250
+    chunks = [[e for b in blocks[i:i + per] for e in b] for i in range(0, len(blocks), per)]
+    with ThreadPoolExecutor(3) as ex:
+        list(ex.map(lambda t: trace.check_trace(ctx, "TraceSpline", "Trace_Spline.cfg", None, t[1], on_reject, drop="block", max_rounds=12,
+                                                label="trace_spline_sessions_%d" % t[0], timeout=1500, xmx="6g"), list(enumerate(chunks))))
+    ctx.traces(len(blocks))
+
+    # queries at the level of the MISSING code: own stream, so that a rejection does not hide the session it belongs to
+    def on_sent(ev, idx, block):
+        ctx.violation("SPLINE:lookup:missing-code", ("%d knots with ordinates around 99999999 (none equal to it): at an abscissa inside piece %d of %d where the spline takes the "
+                      "value 99999999 +- 1e-2, cubic_spline_predict returns the value of another polynomial (relative deviation %s e-12): the result of the piece search is "
+                      "recognised by comparing y with the MISSING code") % (ev["nk"], ev["piece"], ev["last"] + 1, ev["err"]), dict(kind="spline_sessions", nsess=nsess, every=every, event=ev))
+        return lambda e: e["e"] == "Sent"
+    trace.check_trace(ctx, "TraceSpline", "Trace_Spline.cfg", None, sent, on_sent, drop="event", max_rounds=4, label="trace_spline_sentinel", timeout=900)
+
+    # outside the statement: deviations are EXTRA-FINDINGs
+    def on_extra(ev, idx, block):
+        if ev["e"] == "Extrap":
+            sig = "SPLINE:extrapolation:%s" % ("left" if ev["lok"] != 1 else "right" if ev["rok"] != 1 else "non-finite")
+            what = ("cubic_spline_predict half a spacing %s of the knot range does not continue the end piece (left of the first knot the polynomial of the LAST piece is evaluated)" %
+                    ("left" if ev["lok"] != 1 else "right"))
+        else:
+            sp, rp, amp, rep, unit = _tols(ev["hd"], ev["xe"])
+            k = "one-point" if ev["one"] != 0 else "two-points" if ev["two"] > rep else "sampled" if ev["samp"] > TOLAREA else "descending"
+            sig, what = "AREA:intervals:%s" % k, "curve_area(xy, np > 0) / descending abscissae on %d points: %s" % (ev["nk"], {q: ev[q] for q in ("np", "one", "two", "samp", "desc")})
+        ctx.extra(sig, what)
+        return lambda e: e["e"] == ev["e"] and (e["e"] != "Extrap" or (e["lok"], e["rok"], e["fin"]) == (ev["lok"], ev["rok"], ev["fin"]))
+    trace.check_trace(_NoDrift(ctx), "TraceSpline", "Trace_Spline.cfg", None, extra, on_extra, drop="event", max_rounds=8, label="trace_spline_outside_statement", timeout=900)
+    for ev in extra:
+        ctx.case(("extra", ev["e"], ev["nk"]), False)
+
+    # binding self-tests for the new event kinds (small traces; a corrupted field must be rejected)
+    first = blocks[0]
+
+    def corrupt_field(kind, field, delta):
+        def c(evs):
+            for e in evs:
+                if e["e"] == kind:
+                    e[field] = min(2000000000, e[field] + delta)
+                    return True
+            return False
+        return c
+    tests = [("binding_sfit_rows", "SFit", "rows", 1), ("binding_sfit_history", "SFit", "prev", 1), ("binding_sint_history", "SInt", "prow", 1), ("binding_sarea", "SArea", "addb", 2000000000)]
+    if not ctx.quick:
+        tests += [("binding_sfit_c2", "SFit", "c2", 2000000000), ("binding_session_reset", "Reset", "srow", 1), ("binding_sfit_ulp", "SFit", "ulpw", 1), ("binding_sint_shape", "SInt", "cols", 1)]
+    g = dict(e="Sent", sid=0, k=0, nk=6, piece=2, last=4, found=1, err=1)
+    x = dict(e="XArea", sid=0, k=0, nk=4, np=4, xe=1, hd=[0, 0, 0], one=0, two=1, samp=1, desc=1)
+    xg = dict(e="Extrap", sid=0, k=0, nk=4, lok=1, rok=1, fin=1)
+    with ThreadPoolExecutor(3) as ex:
+        futs = [ex.submit(trace.binding_selftest, ctx, "TraceSpline", "Trace_Spline.cfg", first, corrupt_field(kind, field, delta), lab) for lab, kind, field, delta in tests]
+        futs += [ex.submit(_accept_reject, ctx, "binding_sent", [g, x, xg], [g, x, dict(g, err=TOLVAL + 1)]),
+                 ex.submit(_accept_reject, ctx, "binding_xarea", [x], [dict(x, samp=TOLAREA + 1)]),
+                 ex.submit(_accept_reject, ctx, "binding_extrap", [xg], [dict(xg, lok=0)])]
+        for fu in futs:
+            fu.result()
+    ctx.steps["sessions"] = dict(sessions=len(blocks), fits=sum(1 for e in main if e["e"] == "SFit"), interpolate_calls=sum(1 for e in main if e["e"] == "SInt"),
+                                 sentinel_queries=len(sent), outside_statement_events=len(extra),
+                                 worst_interp_1e12=max(e["interp"] for e in main if e["e"] == "SFit"), worst_c1_1e12=max(e["c1"] for e in main if e["e"] == "SFit"))
+    ctx.note("sessions: %d sessions, %d fits into used / fresh tables, %d interpolate() calls into used outputs, %d MISSING-level queries" % (
+        len(blocks), ctx.steps["sessions"]["fits"], ctx.steps["sessions"]["interpolate_calls"], len(sent)))
+
+
+class _NoDrift:
+    """ctx view for the outside-the-statement stream: nothing there may become a verdict or a drift line"""
+    def __init__(self, ctx):
+        self._c = ctx
+
+    def __getattr__(self, k):
+        if k == "spec_drift":
+            return lambda what: None
+        return getattr(self._c, k)
+
+
 # ---------------------------------------------------------------- Nelder-Mead
+SCNAME = {0: "generic", 2: "flat-start-exact-separable", 3: "flat-start-exact-nonseparable", 4: "flat-start-1e-12", 5: "start-at-minimiser", 6: "start-1e3-away",
+          7: "step-decade", 9: "repeat-previous-minimisation"}
+SCNAME_ALL = dict(SCNAME)
+SCNAME_ALL[10] = "integer-family-of-NMTie.tla"
+SCSIG = {0: "", 2: ":flat-start", 3: ":flat-start", 4: ":flat-start", 5: ":start-at-minimiser", 6: ":far-start", 7: ":step-decade", 9: ":repeat", 10: ":model-family"}
+
+
 def _sig_nm(ev, block):
     e = ev.get("e")
     head = block[0] if block and block[0].get("e") == "Reset" else {}
@@ -197,7 +507,16 @@ def _sig_nm(ev, block):
         return "NM:minimiser:offset", ("strictly convex quadratic dim %s cond %s with a minimum value of large magnitude (resolution decade 1e%s): absolute distance to the true "
                                        "minimiser %s (1e-9 units) exceeds 30 sqrt(1e%s): the stop test is no longer the documented absolute one") % (ev.get("dim"), ev.get("cond"), ev.get("R"), ev.get("adist"), ev.get("R"))
     if e == "Quad":
-        return "NM:minimiser", "strictly convex quadratic dim %s cond %s: distance to the true minimiser %s (1e-9 units, relative)" % (ev.get("dim"), ev.get("cond"), ev.get("dist"))
+        sc = ev.get("sc", 0)
+        stall = ev.get("conv") == 0
+        return "NM:minimiser%s%s" % (":stall" if stall else "", SCSIG.get(sc, "")), (
+            "strictly convex quadratic dim %s cond %s, start class %s%s: distance to the true minimiser %s (1e-9 units, relative)%s" % (
+                ev.get("dim"), ev.get("cond"), SCNAME_ALL.get(sc, sc), " (step decade 1e%s)" % head.get("sd") if sc == 7 else
+                (" f = %s x^2 + 2*%s xy + %s y^2, start %s, steps %s" % (tuple(head.get("q", "???")) + (head.get("x0"), head.get("s"))) if sc == 10 else ""), ev.get("dist"),
+                "; the iteration limit %s was exhausted without progress" % head.get("maxit") if stall else "; it stopped after %s evaluations" % next(
+                    (b.get("evals") for b in block if b.get("e") == "Return"), "?")))
+    if e == "Reset" or e == "Eval":
+        raise InfraError("c19_nm: a run announced as flat start is not flat, or the Reset line is malformed: %s" % (head or ev))
     return "NM:trace:%s" % e, "event does not fit the contract: %s" % ev
 
 
@@ -215,8 +534,30 @@ def nm_check(ctx, rd, nfull, nlight):
     blocks = tlc.split_blocks(events)
     if not blocks or not any(e["e"] == "Eval" for e in events):
         raise InfraError("c19_nm: no objective evaluations recorded")
+    got, judged = set(), {}
     for b in blocks:
-        ctx.case(("nm", b[0]["n"], b[0]["maxit"], b[0]["full"], b[0]["id"]), True)
+        r0, q = b[0], b[-1]
+        ctx.case(("nm", r0["n"], r0["maxit"], r0["full"], r0["sc"], r0["id"]), True)
+        tags = ["K1:dim=%d%s" % (r0["n"], ":callback-trace" if r0["full"] else ""), "K8:start=%s" % SCNAME[r0["sc"]], "K7:many-minimisations-in-one-process"]
+        if r0["sc"] == 7:
+            tags.append("K4:step=1e%d" % r0["sd"])
+        if r0["c100"]:
+            tags.append("K5:cond=100-exactly")
+        if not r0["st"]:
+            tags.append("K8:step=NULL(default)")
+        if r0["id"] % 3 == 1:
+            tags.append("K7:result-vector=sized")
+        if q.get("e") == "Quad" and q.get("cls") == 1:
+            tags.append("K3:fmin-offset")
+        for t in tags:
+            ctx.cls(t)
+            got.add(t)
+        if q.get("e") == "Quad" and q.get("judge") == 1:
+            judged[r0["sc"]] = judged.get(r0["sc"], 0) + 1
+    need = set(["K1:dim=%d" % d for d in range(2, 7)] + ["K1:dim=%d:callback-trace" % d for d in range(2, 7)] + ["K8:start=%s" % v for v in SCNAME.values()] +
+               ["K4:step=1e%d" % k for k in ((-3, -2, -1) if ctx.quick else (-3, -2, -1, 1, 2, 3))] + ["K5:cond=100-exactly", "K8:step=NULL(default)", "K7:result-vector=sized"])
+    if nlight >= 72 and (need - got or any(judged.get(sc, 0) == 0 for sc in SCNAME)):
+        raise InfraError("c19_nm: start classes not emitted / not judged: %s %s" % (sorted(need - got), {SCNAME[s]: judged.get(s, 0) for s in SCNAME}))
     full = [e for b in blocks if b[0]["full"] for e in b]
     light = [e for b in blocks if not b[0]["full"] for e in b]
     ctx.sample(dict(run=blocks[0][0], first_events=blocks[0][1:6], last_events=blocks[0][-3:]), 6)
@@ -239,6 +580,19 @@ def nm_check(ctx, rd, nfull, nlight):
                            "the result contract (TraceNMProp.tla) accepts every run" % (n, bad))
     trace.check_trace(ctx, "TraceNMProp", "Trace_NMProp.cfg", None, light, on_reject, drop="block", max_rounds=8, label="trace_nm_prop_light")
     ctx.traces(len(blocks))
+    # binding self-tests for the new fields: a flat class whose announced spread is not flat, a judged distance beyond the bound
+    flatb = next((b for b in blocks if b[0]["sc"] == 2 and not b[0]["full"]), None)
+    if flatb:
+        def corrupt_fs(ev):
+            ev[0]["fs"] = 5
+            return True
+        trace.binding_selftest(ctx, "TraceNMProp", "Trace_NMProp.cfg", flatb, corrupt_fs, "binding_nm_flat_spread")
+    flatf = next((b for b in blocks if b[0]["sc"] in (2, 3) and b[0]["full"]), None)
+    if flatf:
+        def corrupt_eval(ev):
+            ev[2]["v"][2] = (ev[2]["v"][2] + 1) % 4000000
+            return True
+        trace.binding_selftest(ctx, "TraceNM", "Trace_NM.cfg", flatf, corrupt_eval, "binding_nm_flat_eval")
     if not ctx.quick:
         def corrupt_nm(ev):
             for e in ev:
@@ -251,6 +605,7 @@ def nm_check(ctx, rd, nfull, nlight):
     qo = [e for e in q if e.get("cls") == 1]
     bound = {-12: 30000, -11: 94868, -10: 300000, -9: 948683, -8: 3000000, -7: 9486833}
     ctx.steps["nm"] = dict(full_runs=nfull, light_runs=nlight, judged=len(q), converged=sum(e["conv"] for e in q),
+                           judged_by_start_class={SCNAME[s]: judged.get(s, 0) for s in SCNAME},
                            worst_dist_1e9=max([e["dist"] for e in q] or [0]), automaton_accepted=bool(ok),
                            offset_class_runs=len(qo), offset_class_worst_over_bound=round(max([e["adist"] / bound.get(e["R"], 30000000) for e in qo if e["conv"]] or [0]), 4))
     if not qo and nlight >= 12:
@@ -259,31 +614,121 @@ def nm_check(ctx, rd, nfull, nlight):
         nfull, "accepted" if ok else "REJECTED", nlight, ctx.steps["nm"]["worst_dist_1e9"] * 1e-9))
 
 
-def run(ctx, parts=("spline", "ledger", "nm")):
+def nm_family(ctx, rd):
+    """NMTie.tla: exact 2-D model of the routine on integer quadratics; both acceptance rules model-checked; every start of the family
+    replayed through the real routine and judged by the ordinary contract (TraceNMProp.tla)"""
+    rs = tlc.run("NMTieBox", "MC_NMTie_strict.cfg", workers=2, timeout=900)
+    ctx.add_tlc(rs, "mc_nmtie_strict")
+    if rs.violation != "NoStall":
+        raise InfraError("NMTie.tla with Rule = strict: expected NoStall to be refuted, got %s" % rs.violation)
+    ctx.steps["nm_tie_counterexample"] = rs.trace_text[:900]
+    rf = tlc.run("NMTieBox", "MC_NMTie_falsestop.cfg", workers=2, timeout=900)
+    ctx.add_tlc(rf, "mc_nmtie_falsestop")
+    if rf.violation != "NoFalseStop":
+        raise InfraError("NMTie.tla with StopRule = values: expected NoFalseStop to be refuted, got %s" % rf.violation)
+    ctx.steps["nm_false_stop_counterexample"] = rf.trace_text[:900]
+    rt = tlc.run("NMTieBox", "MC_NMTie_textbook.cfg" if ctx.quick else "MC_NMTie_textbook_deep.cfg", workers=2, timeout=1500)
+    ctx.add_tlc(rt, "mc_nmtie_textbook")
+    if not rt.ok:
+        raise InfraError("NMTie.tla with Rule = textbook, StopRule = values+size: %s fails in the model itself:\n%s" % (rt.violation, rt.trace_text[:1500]))
+    if rt.zero_actions():
+        raise InfraError("NMTie.tla: actions never taken: %s" % rt.zero_actions())
+    rg = tlc.run("NMTieBox", "MC_NMTie_gen.cfg" if ctx.quick else "MC_NMTie_gen_wide.cfg", workers=1, timeout=600, coverage=False)
+    ctx.add_tlc(rg, "gen_nmtie")
+    if not rg.emits:
+        raise InfraError("NMTie.tla emitted no start")
+    ctx.note("model NMTie: acceptance rule f1 < fr refuted by NoStall, stop test on values alone refuted by NoFalseStop, f1 <= fr with values+size holds on %d states; %d starts emitted (%d flat)" % (
+        rt.distinct, len(rg.emits), sum(e["flat"] for e in rg.emits)))
+    cf, out = os.path.join(rd, "family.txt"), os.path.join(rd, "family.ndjson")
+    open(cf, "w").write("".join("%d %d %d %d %d %d %d %d\n" % (e["a"], e["b"], e["c"], e["x0"], e["y0"], e["s1"], e["s2"], e["flat"]) for e in rg.emits))
+    lib = build.build_lib("san")
+    exe = build.build_harness("c19n", ["c19_nm.c"], lib)
+    h = hrun.run(exe, ["family", cf, out], timeout=1500)
+    if h.rc != 0:
+        if h.san:
+            ctx.violation("NM:%s" % h.san, "sanitizer report in NelderMeadSimplex (integer family):\n%s" % h.err[:1500], dict(kind="nm"))
+        else:
+            raise InfraError("c19_nm family failed rc=%s: %s" % (h.rc, h.err[-800:]))
+    events = hrun.read_ndjson(out)
+    blocks = tlc.split_blocks(events)
+    if len(blocks) != len(rg.emits):
+        raise InfraError("c19_nm family: %d runs for %d starts" % (len(blocks), len(rg.emits)))
+    for b in blocks:
+        ctx.case(("nm-family", tuple(b[0]["q"]), tuple(b[0]["x0"]), tuple(b[0]["s"])), True)
+        ctx.cls("K8:start=integer-family(TLC-enumerated)")
+        if b[0]["mflat"]:
+            ctx.cls("K8:start=flat-start-exact(model)")
+
+    def on_reject(ev, idx, block):
+        sig, what = _sig_nm(ev, block)
+        ctx.violation(sig, what, dict(kind="nm", run=block[0] if block else None, event=ev))
+    # two traces, grouped by how the run ENDED (on its tolerance / on the iteration limit): a tree with both defects shows both signatures
+    for lab, grp in (("stopped", [e for b in blocks if b[-1]["conv"] == 1 for e in b]), ("exhausted", [e for b in blocks if b[-1]["conv"] == 0 for e in b])):
+        if grp:
+            trace.check_trace(ctx, "TraceNMProp", "Trace_NMProp.cfg", None, grp, on_reject, drop="block", max_rounds=2, label="trace_nm_prop_family_%s" % lab, timeout=1500, xmx="6g")
+    ctx.traces(len(blocks))
+    stalls = [b for b in blocks if b[-1]["conv"] == 0]
+    ctx.steps["nm_family"] = dict(starts=len(blocks), flat=sum(b[0]["mflat"] for b in blocks), exhausted_iteration_limit=len(stalls),
+                                  worst_dist_1e9=max(b[-1]["dist"] for b in blocks))
+    fb = blocks[0]
+
+    def corrupt_mflat(ev):
+        ev[0]["mflat"] = 1 - ev[0]["mflat"]
+        return True
+    trace.binding_selftest(ctx, "TraceNMProp", "Trace_NMProp.cfg", fb, corrupt_mflat, "binding_nm_family_flat")
+
+
+def run(ctx, parts=("spline", "ledger", "sessions", "nm")):
     ctx.assumptions += [
         "TLC computes the exact natural spline / polyline area only for 3..5 integer knots in a small box; those knot sets are replayed at nine scale decades",
         "the piece used by cubic_spline_predict is identified from the public S table: a piece counts as used when its polynomial reproduces the returned value within 1e-9 relative",
         "ledger residuals (interpolation, C1/C2 jumps, end curvature, linear reproduction, unit independence, trapezoid sums) are computed by the harness in double / long double and compared by TLC with 1e-8 (spline) and 1e-9 (area, replayed values)",
-        "Nelder-Mead: doubles are logged as order-preserving 3-limb integer codes; the stop test is unobservable, Return is accepted after any completed iteration; distance bound 1e-3 relative (survey worst 1.2e-6)",
+        "session residuals: the same, with tolerances that TLC computes from the logged spacing decades of the knot set (TolAmp, TolRep, TolUnit of TraceSpline.tla); spacings are logged as floor(log10 h)",
+        "Nelder-Mead: doubles are logged as order-preserving 3-limb integer codes; the stop test is unobservable, Return is accepted after any completed iteration; distance bound 1e-3 relative (survey worst 2.3e-5)",
         "ASan/UBSan build",
     ]
     lib = build.build_lib("san")
     exe = build.build_harness("c19s", ["c19_spline.c"], lib)
+    exc = build.build_harness("c19c", ["c19_cls.c"], lib)
     rd = tlc.rundir()
+    lctx = _Locked(ctx)
+
+    def part_spline():
+        recs = spline_model(lctx)
+        spline_replay(lctx, recs, exe, rd)
+
+    def part_ledger():
+        spline_ledger(lctx, exe, rd, 300 if ctx.quick else 20000)
+
+    def part_sessions():
+        hist_model(lctx)
+        spline_sessions(lctx, exc, rd, 64 if ctx.quick else 3040, 0 if ctx.quick else 1)
+
+    def part_nm():
+        if ctx.quick:
+            nm_check(lctx, rd, 60, 180)
+        else:
+            nm_check(lctx, rd, 120, 6000)
+        nm_family(lctx, rd)
+    jobs = [f for name, f in (("spline", part_spline), ("ledger", part_ledger), ("sessions", part_sessions), ("nm", part_nm)) if name in parts]
     try:
-        if "spline" in parts:
-            recs = spline_model(ctx)
-            spline_replay(ctx, recs, exe, rd)
-        if "ledger" in parts:
-            spline_ledger(ctx, exe, rd, 300 if ctx.quick else 20000)
-        if "nm" in parts:
-            if ctx.quick:
-                nm_check(ctx, rd, 36, 180)
-            else:
-                nm_check(ctx, rd, 100, 6000)
+        with ThreadPoolExecutor(len(jobs)) as ex:
+            futs = [ex.submit(f) for f in jobs]
+            errs = []
+            for fu in futs:
+                try:
+                    fu.result()
+                except Exception as e:       # noqa: BLE001 - re-raised below, infrastructure errors first
+                    errs.append(e)
+        for e in errs:
+            if isinstance(e, (InfraError, tlc.TlcInfraError, build.BuildError)):
+                raise e
+        if errs:
+            raise errs[0]
         ctx.cov["rule"] = ("replay: every integer knot set TLC enumerated (3..5 knots) x 9 scale decades, keyed (knot count, decade, knot set), non-trivial = decade # 1e0 or "
-                           "irregular gaps; ledger: seeded random knot sets keyed (knot count 3..40, spacing decade, uniform/irregular class); Nelder-Mead: seeded strictly "
-                           "convex quadratics keyed (dimension, iteration limit, run id)")
+                           "irregular gaps; ledger: seeded random knot sets keyed (knot count 3..40, spacing decade, uniform/irregular class); sessions: class-scheduled fits keyed "
+                           "(knot count, history class of the table, mesh class, ordinate magnitude, ordinate offset, abscissa offset, collinear), interpolate() calls keyed (knot count, "
+                           "points, history class of the output); Nelder-Mead: seeded strictly convex quadratics keyed (dimension, iteration limit, callback-trace?, start class, run id)")
     finally:
         shutil.rmtree(rd, ignore_errors=True)
 
@@ -298,5 +743,7 @@ def replay(ctx, body):
         run(ctx, parts=("ledger",))
     elif kind == "spline_replay":
         run(ctx, parts=("spline",))
+    elif kind == "spline_sessions":
+        run(ctx, parts=("sessions",))
     else:
         run(ctx)
